@@ -55,7 +55,7 @@ func (e *Exec) ctxMethod(c *CtxV, name string, args []Value) Value {
 	case "Err":
 		return IfaceV{}
 	case "Deadline":
-		return TupleV{V: []Value{TimeV{T: IntC(zeroTimeNanos)}, tFalse}}
+		return TupleV{V: []Value{TimeV{T: BVC(128, zeroTimeNanos)}, tFalse}}
 	}
 	panic(abortf("UNSUPPORTED context method %s", name))
 }
@@ -78,7 +78,7 @@ func init() {
 		return e.ctxField(ctxOf(a[0]), "height", func() Value { return BVI(64, 0) })
 	}
 	I[C+"BlockTime"] = func(e *Exec, fn *ssa.Function, a []Value) Value {
-		return e.ctxField(ctxOf(a[0]), "time", func() Value { return TimeV{T: IntC(zeroTimeNanos)} })
+		return e.ctxField(ctxOf(a[0]), "time", func() Value { return TimeV{T: BVC(128, zeroTimeNanos)} })
 	}
 	I[C+"ChainID"] = func(e *Exec, fn *ssa.Function, a []Value) Value {
 		return e.ctxField(ctxOf(a[0]), "chainid", func() Value { return StrV{} })
@@ -143,31 +143,38 @@ func init() {
 	}
 
 	// ---------- time ----------
+	// time.Time = signed 128-bit count of nanoseconds since the Unix epoch (the zero Time,
+	// year 1, does not fit 64 bits). Duration results are truncated to 64 bits; Go saturates
+	// instead, which only differs for spans above 292 years (outside the stated bound).
 	T := "(time.Time)."
 	tv := func(v Value) *Term { return v.(TimeV).T }
-	I[T+"Add"] = func(e *Exec, fn *ssa.Function, a []Value) Value {
-		return TimeV{T: IAdd(tv(a[0]), BV2Int(a[1].(*Term)))}
-	}
-	I[T+"Sub"] = func(e *Exec, fn *ssa.Function, a []Value) Value { return Int2BV(64, ISub(tv(a[0]), tv(a[1]))) }
-	I[T+"After"] = func(e *Exec, fn *ssa.Function, a []Value) Value { return IGt(tv(a[0]), tv(a[1])) }
-	I[T+"Before"] = func(e *Exec, fn *ssa.Function, a []Value) Value { return ILt(tv(a[0]), tv(a[1])) }
+	e9 := BVC(128, big.NewInt(1000000000))
+	I[T+"Add"] = func(e *Exec, fn *ssa.Function, a []Value) Value { return TimeV{T: BVAdd(tv(a[0]), SExt(128, a[1].(*Term)))} }
+	I[T+"Sub"] = func(e *Exec, fn *ssa.Function, a []Value) Value { return Extract(63, 0, BVSub(tv(a[0]), tv(a[1]))) }
+	I[T+"After"] = func(e *Exec, fn *ssa.Function, a []Value) Value { return BVSlt(tv(a[1]), tv(a[0])) }
+	I[T+"Before"] = func(e *Exec, fn *ssa.Function, a []Value) Value { return BVSlt(tv(a[0]), tv(a[1])) }
 	I[T+"Equal"] = func(e *Exec, fn *ssa.Function, a []Value) Value { return Eq(tv(a[0]), tv(a[1])) }
 	I[T+"Compare"] = func(e *Exec, fn *ssa.Function, a []Value) Value {
-		return Ite(ILt(tv(a[0]), tv(a[1])), BVI(64, -1), Ite(Eq(tv(a[0]), tv(a[1])), BVI(64, 0), BVI(64, 1)))
+		return Ite(BVSlt(tv(a[0]), tv(a[1])), BVI(64, -1), Ite(Eq(tv(a[0]), tv(a[1])), BVI(64, 0), BVI(64, 1)))
 	}
 	I[T+"UTC"] = func(e *Exec, fn *ssa.Function, a []Value) Value { return a[0] }
-	I[T+"IsZero"] = func(e *Exec, fn *ssa.Function, a []Value) Value { return Eq(tv(a[0]), IntC(zeroTimeNanos)) }
+	I[T+"IsZero"] = func(e *Exec, fn *ssa.Function, a []Value) Value { return Eq(tv(a[0]), BVC(128, zeroTimeNanos)) }
 	I[T+"Unix"] = func(e *Exec, fn *ssa.Function, a []Value) Value {
-		return Int2BV(64, IDiv(tv(a[0]), IntI(1000000000)))
+		t := tv(a[0])
+		// floor division by 1e9
+		q := BVSDiv(t, e9)
+		r := BVSRem(t, e9)
+		q = Ite(BVSlt(r, BVU(128, 0)), BVSub(q, BVU(128, 1)), q)
+		return Extract(63, 0, q)
 	}
-	I[T+"UnixNano"] = func(e *Exec, fn *ssa.Function, a []Value) Value { return Int2BV(64, tv(a[0])) }
+	I[T+"UnixNano"] = func(e *Exec, fn *ssa.Function, a []Value) Value { return Extract(63, 0, tv(a[0])) }
 	I[T+"String"] = func(e *Exec, fn *ssa.Function, a []Value) Value { return StrV{S: "<time>"} }
 	I["time.Unix"] = func(e *Exec, fn *ssa.Function, a []Value) Value {
-		return TimeV{T: IAdd(IMul(BV2Int(a[0].(*Term)), IntI(1000000000)), BV2Int(a[1].(*Term)))}
+		return TimeV{T: BVAdd(BVMul(SExt(128, a[0].(*Term)), e9), SExt(128, a[1].(*Term)))}
 	}
 	I["time.Now"] = func(e *Exec, fn *ssa.Function, a []Value) Value {
 		// environment nondeterminism: a fresh arbitrary instant on every call
-		t := e.freshVar("env_time_now", IntSort)
+		t := e.freshVar("env_time_now", BVSort(128))
 		e.EnvNondet = append(e.EnvNondet, "time.Now")
 		return TimeV{T: t}
 	}
